@@ -380,6 +380,11 @@ func main() {
 			fatal(fmt.Errorf("run <pkg> <func>"))
 		}
 		doRun(fs.Arg(0), fs.Arg(1), *workers, *trace, *assign, *maxpaths)
+	case "replay":
+		if len(os.Args) < 4 {
+			fatal(fmt.Errorf("replay <ID> <assignment.json>"))
+		}
+		os.Exit(doReplay(os.Args[2], os.Args[3]))
 	case "check":
 		if len(os.Args) < 4 {
 			fatal(fmt.Errorf("check <ID> quick|thorough"))
@@ -427,6 +432,56 @@ func doRun(rel, fn string, workers int, trace bool, assign string, maxpaths int)
 		p := fmt.Sprintf("/tmp/symgo-viol-%d.json", k)
 		os.WriteFile(p, b, 0o644)
 	}
+}
+
+// doReplay re-runs one recorded counterexample natively against /repo's
+// current working tree (go test with the harness overlay) and prints the
+// outcome. Exit 1 if the violation reproduces, 0 if the run is clean.
+func doReplay(id, file string) int {
+	b, err := os.ReadFile(file)
+	if err != nil {
+		fatal(err)
+	}
+	a := &interp.Assignment{}
+	if err := json.Unmarshal(b, a); err != nil {
+		fatal(err)
+	}
+	hs, files, err := scanHarnesses()
+	if err != nil {
+		fatal(err)
+	}
+	var h *Harness
+	for _, x := range hs {
+		if x.Func == a.Harness {
+			h = x
+		}
+	}
+	if h == nil {
+		fatal(fmt.Errorf("harness %q of %s is not registered", a.Harness, file))
+	}
+	abs, _ := filepath.Abs(file)
+	workDir, err := os.MkdirTemp("", "symgo-replay-")
+	if err != nil {
+		fatal(err)
+	}
+	defer os.RemoveAll(workDir)
+	ovT := buildOverlay([]string{h.Pkg}, files, hs, true)
+	ovJSON := writeOverlayFiles(ovT, workDir)
+	got, txt := nativeReplay(h.Pkg, ovJSON, []string{abs}, true, 60*time.Second)
+	o := got[abs]
+	fmt.Printf("replay property=%s harness=%s package=%s label=%q\n  values=%v\n  chooses=%v\n  outcome=%s\n", id, h.Func, h.Pkg, a.Label, a.Values, a.Chooses, o)
+	if os.Getenv("SYMGO_VERBOSE") != "" || o == "" || o == "no-outcome" {
+		fmt.Println(txt)
+	}
+	if o == "ok" || o == "assume-failed" {
+		return 0
+	}
+	if strings.Contains(o, "replay diverged") {
+		fmt.Println("STALE: the assignment was recorded for a different version of the harness")
+		return 2
+	}
+	fmt.Printf("VIOLATION property=%s replay=%s\n", id, abs)
+	return 1
 }
 
 func printResult(res *interp.Result) {
@@ -654,7 +709,7 @@ func doCheck(id, tier string) int {
 		paths += r.Res.Paths
 		asserts += r.Res.Asserts
 	}
-	fmt.Printf("OK property=%s tier=%s harnesses=%d paths=%d assertions=%d known=%d wall=%.1fs\n", id, tier, len(reports), paths, asserts, len(knownSeen), time.Since(t0).Seconds())
+	fmt.Printf("OK property=%s tier=%s harnesses=%d paths=%d assertions=%d known=%d inconclusive=%d wall=%.1fs\n", id, tier, len(reports), paths, asserts, len(knownSeen), len(inconclusive), time.Since(t0).Seconds())
 	return 0
 }
 
